@@ -69,6 +69,7 @@ type validationRec struct {
 	height uint64
 	body   string
 	ok     bool
+	by     string // the proposer the library names to the consumer (must be the leader of the proposal's view)
 }
 
 type commitRec struct {
@@ -101,6 +102,7 @@ type cnode struct {
 	rounds      []obj
 	proposals   int
 	proposed    []string
+	proposedBy  []string
 	panicked    string
 
 	// history
@@ -158,6 +160,7 @@ func (n *cnode) RequestNewBlockProposal(ctx context.Context, blockHeight primiti
 	body := fmt.Sprintf("b%d.n%d.%d", uint64(blockHeight), n.idx, n.proposalSeq)
 	n.cl.addBody(body)
 	n.proposed = append(n.proposed, body)
+	n.proposedBy = append(n.proposedBy, n.cl.nameOf(memberId))
 	return &vBlock{height: uint64(blockHeight), body: body}, hashOfBody(body)
 }
 
@@ -180,7 +183,7 @@ func (n *cnode) validAt(height uint64, block interfaces.Block, hash primitives.B
 
 func (n *cnode) ValidateBlockProposal(ctx context.Context, blockHeight primitives.BlockHeight, memberId primitives.MemberId, block interfaces.Block, blockHash primitives.BlockHash, prevBlock interfaces.Block) error {
 	ok := n.validAt(uint64(blockHeight), block, blockHash)
-	n.validations = append(n.validations, validationRec{height: uint64(blockHeight), body: blockName(block), ok: ok})
+	n.validations = append(n.validations, validationRec{height: uint64(blockHeight), body: blockName(block), ok: ok, by: n.cl.nameOf(memberId)})
 	if !ok {
 		return errors.New("consumer rejects the proposal")
 	}
@@ -415,7 +418,7 @@ func (cl *cluster) newNode(i int) *cnode {
 }
 
 func (n *cnode) resetObs() {
-	n.sends, n.stores, n.validations, n.commits, n.rounds, n.proposals, n.panicked, n.proposed = nil, nil, nil, nil, nil, 0, "", nil
+	n.sends, n.stores, n.validations, n.commits, n.rounds, n.proposals, n.panicked, n.proposed, n.proposedBy = nil, nil, nil, nil, nil, 0, "", nil, nil
 }
 
 // step releases the worker for exactly one loop iteration (one input is ready) and waits for it to
